@@ -229,7 +229,7 @@ def run(ctx):
     I16 = w16.I
     fm16 = I16.global_name("formulas", "formula")
     other16 = I16.new_obj("other_public_table", None, {}, open_attrs=set())
-    for fname in ("D2O_sld", "D2O_match"):
+    for fname in ("D2O_sld", "D2O_match", "neutron_scattering", "neutron_sld"):
         _c16.COMPOUND_STRINGS.clear()
         _c16.COMPOUND_STRINGS["<compound>"] = [lambda tab: I16.call(fm16, [{w16.atoms["H1"]: sp.Integer(2), w16.atoms["element2"]: sp.Integer(1)}],
                                                                     {"density": sp.Symbol("rho", positive=True)})]
@@ -251,16 +251,6 @@ def run(ctx):
         ctx.check(passes, "R4", "formula(): the 'aa:'/'dna:'/'rna:' prefix route passes table= on",
                   "fasta.Sequence(...) is built without the table argument: formula('aa:A', table=T) contains atoms of the public table",
                   f"{ctx.src.where('formulas', n)} formulas.formula")
-    # neutron_scattering and the D2O routines hand table= to formula()
-    d2o_helpers = callees_in_common(ctx, "nsf.D2O_match", "nsf.D2O_sld", exclude=("nsf.mix_values",))
-    for qual in ["nsf.neutron_scattering"] + [q_ for q_ in d2o_helpers if q_.startswith("nsf.") or True][:1]:
-        fn = ctx.src.func(qual)
-        ok = False
-        for n in ast.walk(fn.node):
-            if isinstance(n, ast.Call) and ast.unparse(n.func).endswith("formula"):
-                if any(k.arg == "table" for k in n.keywords) or any(k.arg is None for k in n.keywords):
-                    ok = True
-        ctx.check(ok, "R4", f"{qual.split('.')[1]} passes table= to formula()", "table is dropped", fsite(ctx, qual))
     ctx.floor("R4", 19)
     # building one table leaves the module-level element data as it was: the next table gets the same elements
     wa = world(ctx)
